@@ -34,6 +34,10 @@ claims = {
  'C07': dict(engine='seq', cat='model_checking', ref='DESIGN.md §3 C07',
    text="Bounded exhaustive on a virtual clock: the same command x key-type matrix applied 2 ms and 1 ms before the deadline, 1 ms, 2 ms and long after it (objects still stored, never slept for), with mixed expired / live operands and destinations; the model drops a key at its deadline, so every command must treat an expired-but-stored key exactly like a missing one. Plus the complete EXPIRE/PEXPIRE/EXPIREAT/PEXPIREAT x NX/XX/GT/LT x prior-TTL matrix, SET/GETEX expiration options, and the keep/clear rule of every writer, observed through PTTL of every key after every transition.",
    note=E1_NOTE + " Exact-deadline coincidences (observation at the very millisecond of the deadline, GT/LT ties) are not judged.", tech=E1_TECH),
+ 'C17': dict(engine='scan', cat='model_checking', ref='DESIGN.md §3 C17',
+   text="Exhaustive enumeration of iteration histories: every placement of up to m (2 quick / 3 thorough) insertions and deletions between the calls of a full SCAN / HSCAN / SSCAN iteration, for every COUNT in {1,2,3,n,n+1,..}, with and without MATCH, over collections whose element names are picked with the dictionary's own hash function so that one insertion doubles the bucket table (16->32->64) and one deletion halves it (64->32->16) in the middle of the iteration (measured: histories_with_table_resize_mid_iteration). Oracle per history: every element present from start to end is returned, nothing absent during the whole iteration is returned, MATCH is honoured, the iteration returns to cursor 0 within a bounded number of calls after the last change.",
+   note="Trusted: the harness's bookkeeping of always-present / ever-present elements; the optional private-state probe (table size) only feeds an evidence counter. Tables beyond 128 buckets and more than m mutations per iteration are not covered.",
+   tech="exhaustive enumeration of bounded operation histories on the real implementation (stateless model checking of the iteration protocol)"),
 }
 pending_reason = "check not built yet (work in progress in this session; see DESIGN.md build order)"
 
@@ -63,6 +67,7 @@ manifest = {
    "add_only": True
  },
  "engines": [
+   {"name": "scan", "path": "checks/mc/scan.go", "serves_properties": ["C17"], "kind_free_text": "history enumeration for the SCAN family"},
    {"name": "seq", "path": "checks/mc/seq.go", "serves_properties": [i for i in ids if claims.get(i,{}).get('engine')=='seq'], "kind_free_text": "E1: explicit-state BFS over model states, transitions replayed on the implementation (16 worker processes)"},
  ],
  "checks": checks,
